@@ -850,7 +850,9 @@ func runRegion(env *vk.Env, crash bool) {
 	if !env.Quick() {
 		cfg = "Region_MC_thorough.cfg"
 	}
-	sres := env.MustSpec(vk.TLCRun{Name: "S exhaustive", Module: "Region", Cfg: cfg, Workers: 8, Timeout: 40 * time.Minute, Heap: "12g"})
+	// thorough: ~110 M generated / 55 M distinct states, 16 min with 12 workers on a loaded machine; the limit leaves a wide
+	// margin because a timeout is an inconclusive run (exit 2)
+	sres := env.MustSpec(vk.TLCRun{Name: "S exhaustive", Module: "Region", Cfg: cfg, Workers: env.Pick(8, 12), Timeout: 150 * time.Minute, Heap: "12g"})
 	if sres == nil {
 		return
 	}
